@@ -562,7 +562,9 @@ static void var_build(uint64_t v, int64_t T, struct variant *out) {
             out->must_accept = !colon; /* header: "offsets from UTC (e.g. +0100, -0700)" */
         } else {
             out->len = iso_text(out->text, sizeof(out->text), &c, base == B_BASIC, 'T', "", tmp);
-            out->must_accept = base == B_ISO ? colon : !colon; /* the format's own notation; the other one: either verdict */
+            /* the property quantifies over all formats x both offset spellings, and the ISO 8601 parser is documented lenient between
+             * the extended and the basic form ("allow offset with separator or not"): both spellings must be accepted in both forms */
+            out->must_accept = 1;
         }
         return;
     }
